@@ -505,6 +505,18 @@ def _b64(text):
     return base64.b64encode(data).decode()
 
 
+def _canary(b, rng, frag="plain"):
+    """A small model built through the public constructors: alive across the segment (frame
+    check: reading documents must not change other live models) and built again at the end
+    (shared defaults / class-level state must not have been altered by the readers)."""
+    pool = gen.name_pool(rng, "plain", 5, ["ident"])
+    cfg = gen.default_cfg(rng, frag, "quick")
+    cfg["size"] = "s"
+    # style "bu": features are constructed without an explicit cardinality, i.e. with the
+    # default Cardinality instance that every such Feature in the process shares
+    b.op(op="NEW", m=b.handle(), ref=gen.gen_model(rng, frag, pool, cfg), style="bu", frag=frag)
+
+
 def plan_uvl_peer(seed, tier):
     """C04: an independent UVL emitter writes documents onto the faulty disk; the real
     UVLReader reads them.  Positive half: the model the document denotes.  Negative half:
@@ -517,6 +529,7 @@ def plan_uvl_peer(seed, tier):
     for _s in range(rng.choice([1, 1, 2])):
         b.segment(env=_seg_env(rng), disk_cfg=b.disk_cfg(buggify), cwd=rng.choice(DIRS))
         pool = gen.name_pool(rng, "uvl", rng.randint(6, 14))
+        _canary(b, rng)
         for _d in range(rng.randint(3, 9 if tier == "quick" else 25)):
             cfg = gen.default_cfg(rng, "uvl", tier)
             cfg["nonascii_values"] = rng.random() < 0.2
@@ -559,6 +572,7 @@ def plan_uvl_peer(seed, tier):
                      bit=rng.randint(0, 7), byte=rng.choice([0x24, 0, 0xff, 0x7b, 0x22]),
                      sector=rng.choice([16, 64]))
                 b.op(op="READ", fmt="uvl", path=path, pathstyle="abs")
+        _canary(b, rng)
     b.plan["replicas"] = [{"env": {}, "disk_cfg": {"default_encoding": "utf-8"}}]
     if rng.random() < 0.25:
         b.plan["replicas"].append({"env_by_segment": [_seg_env(rng) for _ in range(2)],
@@ -627,6 +641,7 @@ def plan_third_party(seed, tier):
     small = [c for c in files if c[1] <= limit]
     for _s in range(rng.choice([1, 1, 2])):
         b.segment(env=_seg_env(rng), disk_cfg=b.disk_cfg(buggify), cwd=rng.choice(DIRS))
+        _canary(b, rng)
         for _d in range(rng.randint(3, 9 if tier == "quick" else 20)):
             if rng.random() < (0.12 if tier == "quick" else 0.3):
                 relp, _size, stats = rng.choice(small)
@@ -652,11 +667,18 @@ def plan_third_party(seed, tier):
                                for j in range(rng.randint(0, 4))]
             emit = {"fide": peers.emit_fide, "fama": peers.emit_fama, "afm": peers.emit_afm,
                     "glencoe": peers.emit_glencoe}[kind]
-            text, info = emit(ref, rng)
+            odd = kind == "fama" and rng.random() < 0.08
+            text, info = emit(ref, rng, True) if odd else emit(ref, rng)
             path = b.path(fmt)
             tags = ["peer." + kind] + ["surface." + c for c in info["choices"]]
             k = rng.random()
-            if kind == "afm" and rng.random() < 0.12:
+            if odd:
+                # outside what FaMa tools write: no statement about the model, only that what
+                # the reader returns (if it returns) is a proper tree (C02)
+                b.op(op="PUT", path=path, fmt=fmt, b64=_b64(text), prop="C09", tags=tags,
+                     expect={"kind": "any"})
+                b.op(op="READ", fmt=fmt, path=path, pathstyle="abs")
+            elif kind == "afm" and rng.random() < 0.12:
                 # relational / arithmetic attribute constraints are legal AFM that the metamodel
                 # reader does not support: it has to refuse the document, not drop them
                 nms = rm.names(ref)
@@ -718,18 +740,22 @@ def plan_third_party(seed, tier):
                      bit=rng.randint(0, 7), byte=rng.choice([0x3c, 0, 0xff, 0x7b, 0x22]),
                      sector=rng.choice([16, 64]))
                 b.op(op="READ", fmt=fmt, path=path, pathstyle="abs")
+        _canary(b, rng)
     b.plan["replicas"] = [{"env": {}, "disk_cfg": {"default_encoding": "utf-8"}}]
     return b.plan
 
 
 def _fama_cards(ref, rng):
-    """FaMa relations carry explicit cardinalities: use some that are none of the named kinds."""
+    """FaMa relations carry explicit cardinalities, read as written: use some that are none of
+    the named kinds, also on single-child relations and with max above the number of children."""
     for feat in rm.features(ref):
         for rel in feat["rels"]:
             n = len(rel["ch"])
             if n > 1 and rng.random() < 0.25:
                 rel["min"] = rng.randint(0, n)
-                rel["max"] = rng.randint(max(rel["min"], 1), n)
+                rel["max"] = rng.randint(max(rel["min"], 1), n + rng.choice([0, 0, 2]))
+            elif n == 1 and rng.random() < 0.12:
+                rel["min"], rel["max"] = rng.choice([(1, 3), (0, 2), (2, 2), (0, 0), (1, 2)])
 
 
 SCENARIOS["uvl-peer"] = plan_uvl_peer
